@@ -135,7 +135,7 @@ IMAGE_SLOTS = ("image-name", "image-in-form", "form-name")
 OTYPES = ["text", "xml", "html"]
 
 BOUNDS = {
-    "quick": "11 slots x 19 hostile strings (image slots x 7 export kinds) x output type text; + xml/html for image-name; + inline image and benign baselines; + 17 late-sentinel cases (files appearing after the ImageWriter exists); + 6 CMap slots x 5 names with CMAP_PATH unset and decoys in the working directory; + CMAP_PATH in {'', '.', relative dir} x 5 slots x 6 names; + 10 symlink-inside-resource-dir cases; + %d names built from the %d code points whose normal/case forms contain path syntax x 4 slots; + %d names over the regex/glob/printf metacharacters x 6 sets of pre-existing NAME/NAME.0/NAME.1 files x 3 same-named exports (3 pages); + image names {., .., empty, x} x {BitsPerComponent, Width, Height} x 9 non-integer values (names, strings, real, negative, null, array) through the raw export; + 6 output-dir spellings (through a symlink + '..', relative, './', trailing slash) x 2 names x 2 kinds x existing/fresh" % (len(UNICODE_HOSTILE), len(COMPAT), len(META_NAMES)),
+    "quick": "11 slots x 19 hostile strings (image slots x 7 export kinds) x output type text; + xml/html for image-name; + inline image and benign baselines; + 17 late-sentinel cases (files appearing after the ImageWriter exists); + 6 CMap slots x 5 names with CMAP_PATH unset and decoys in the working directory; + CMAP_PATH in {'', '.', relative dir} x 5 slots x 6 names; + 10 symlink-inside-resource-dir cases; + %d names built from the %d code points whose normal/case forms contain path syntax x 4 slots; + %d names over the regex/glob/printf metacharacters x 6 sets of pre-existing NAME/NAME.0/NAME.1 files x 3 same-named exports (3 pages); + image names {., .., empty, x} x {BitsPerComponent, Width, Height, ColorSpace, Filter} x 13 hostile values (names with slashes/dots, strings with path syntax, real, negative, huge, null, array) through the raw export; + 6 output-dir spellings (through a symlink + '..', relative, './', trailing slash) x 2 names x 2 kinds x existing/fresh" % (len(UNICODE_HOSTILE), len(COMPAT), len(META_NAMES)),
     "thorough": "quick + all output types for every image case + all unordered slot pairs x 4x4 traversal strings",
 }
 
@@ -274,8 +274,9 @@ def _field_value(spec, root: str) -> Any:
 
 
 # other document-controlled entries of the image dictionary that end up in the exported file's name
-IMG_FIELDS = ["BitsPerComponent", "Width", "Height"]
-IMG_FIELD_VALUES = [("name", "x"), ("name", "../x"), ("name", ROOT_TOKEN + "/abs/x"), ("str", "/../x"), ("str", "../x"), ("real", 4.5), ("int", -4), ("null",), ("list", 4)]
+IMG_FIELDS = ["BitsPerComponent", "Width", "Height", "ColorSpace", "Filter"]  # the last two select the export branch / extension
+IMG_FIELD_VALUES = [("name", "x"), ("name", "../x"), ("name", ROOT_TOKEN + "/abs/x"), ("str", "/../x"), ("str", "../x"), ("real", 4.5), ("int", -4), ("int", 10 ** 30), ("null",), ("list", 4),
+                    ("name", "'pwned'"), ("name", "."), ("name", "..")]
 
 
 def build_pdf(slots: List[Tuple[str, str]], kind: str, inline: bool = False, img_field: Optional[Tuple[str, Any]] = None) -> bytes:
